@@ -9,6 +9,7 @@
 #include "galois/AtomicHelpers.h"
 #include "galois/DynamicBitset.h"
 #include "galois/UnionFind.h"
+#include "galois/FixedSizeRing.h"
 
 #include <map>
 #include <set>
@@ -20,14 +21,15 @@ const char* const HARNESS = "c15s";
 enum { F_FN = S_NFIELDS, F_THREADS, F_N, F_DELAY, F_OSEED, F_COUNT };
 const std::vector<const char*> FIELDS = {VERIF_SCHED_FIELDS, "fn", "threads", "n", "delay", "oseed"};
 // tail: one value per operation: thread + 8 * (kind + 4 * value)
-static const char* FN_NAMES[] = {"atomic_helpers", "bitset_concurrent", "union_find"};
+static const char* FN_NAMES[] = {"atomic_helpers", "bitset_concurrent", "union_find", "concurrent_bag_push"};
+constexpr int NFN = 4;
 
 Case generate() {
   using namespace rc;
   Case c;
   c.f.assign(F_COUNT, 0);
   gen_schedule(c);
-  c[F_FN]      = *uni(0, 3);
+  c[F_FN]      = *uni(0, NFN);
   c[F_THREADS] = *gen::weightedElement<int>({{4, 2}, {3, 3}, {2, 4}, {1, 6}});
   c[F_N]       = *uni(2, 11);
   c[F_DELAY]   = *uni(0, 3);
@@ -45,7 +47,7 @@ Case generate() {
 }
 
 std::string finding_key(const Case& c, const std::string& failkey) {
-  return std::string("C15/") + FN_NAMES[c[F_FN] % 3] + "/" + failkey;
+  return std::string("C15/") + FN_NAMES[c[F_FN] % NFN] + "/" + failkey;
 }
 
 struct Quiet {
@@ -72,7 +74,7 @@ void run(const Case& c) {
   start_scheduler(c, 20000, 0, 60000000);
   galois::SharedMemSys G;
   auto& tp    = galois::substrate::getThreadPool();
-  int fn      = (int)(c[F_FN] % 3);
+  int fn      = (int)(c[F_FN] % NFN);
   unsigned T  = galois::setActiveThreads((unsigned)c[F_THREADS]);
   int N       = (int)c[F_N];
   int delay   = (int)c[F_DELAY];
@@ -280,6 +282,50 @@ void run(const Case& c) {
     label("shared_words", (long)std::min(shared_words, 3));
     label("contended_bits", (long)std::min(contended_bits, 3));
     nontrivial((shared_words >= 1 || contended_bits >= 1) && gsched_switches() >= 2);
+    vok();
+  }
+
+  if (fn == 3) {
+    // ---- ConcurrentFixedSizeBag: concurrent pushes claim distinct slots; a push fails only when the bag is full
+    galois::ConcurrentFixedSizeBag<int64_t, 8> bag;
+    std::vector<std::vector<std::pair<int64_t, int64_t*>>> pushed(T);
+    std::vector<long> refused(T, 0);
+    long total = 0;
+    tp.run(T, [&]() {
+      unsigned tid = galois::substrate::ThreadPool::getTID();
+      for (size_t i = 0; i < per[tid].size(); ++i) {
+        pause(tid, i);
+        int64_t v  = (int64_t)tid * 1000 + (int64_t)i;
+        int64_t* p = bag.push_front(v);
+        Quiet q;
+        if (p)
+          pushed[tid].push_back({v, p});
+        else
+          ++refused[tid];
+      }
+    });
+    gsched_liveness_clear();
+    std::map<int64_t*, int64_t> slots;
+    long ok = 0, no = 0;
+    for (unsigned t = 0; t < T; ++t) {
+      total += (long)per[t].size();
+      no += refused[t];
+      for (auto& pv : pushed[t]) {
+        ++ok;
+        VCHECK(!slots.count(pv.second), "bag-slot-shared", "two concurrent push_front calls (values %lld and %lld) were given the same slot", (long long)slots[pv.second],
+               (long long)pv.first);
+        slots[pv.second] = pv.first;
+        VCHECK(*pv.second == pv.first, "bag-value-lost", "slot of value %lld holds %lld after all pushes", (long long)pv.first, (long long)*pv.second);
+      }
+    }
+    VCHECK(ok == std::min<long>(total, 8) && ok + no == total, "bag-refused", "%ld of %ld concurrent pushes into an 8-slot bag succeeded (%ld refused)", ok, total, no);
+    VCHECK((long)bag.size() == ok, "bag-size", "size() = %u after %ld successful pushes", bag.size(), ok);
+    std::multiset<int64_t> got(bag.begin(), bag.end()), want;
+    for (auto& kv : slots)
+      want.insert(kv.second);
+    VCHECK(got == want, "bag-content", "the bag's %zu elements are not the %zu values pushed successfully", got.size(), want.size());
+    label("pushes", (long)std::min<long>(total, 12));
+    nontrivial(busy >= 2 && total >= 3 && gsched_switches() >= 2);
     vok();
   }
 
